@@ -257,9 +257,21 @@ structure VKW where
   deriving Repr, Inhabited
 
 /-- `VerificationKeyWitness(vkey, signature)` with its `__post_init__`: an `ExtendedVerificationKey` INSTANCE is
-replaced by `vkey.to_non_extended()` (the test is on the class, not on the length of the payload) -/
+replaced by `vkey.to_non_extended()` (the test is on the class, not on the length of the payload); else ANY
+`VerificationKey` instance (role-specific subclass or not, whatever envelope it carries) by
+`VerificationKey(vkey.payload)`: only the key bytes are on the wire, and the witness holds what decoding returns.
+Anything else — a signing key, an object that is no key — is kept as it is (and refused by `validate`). -/
 def mkVKW (k : KeyObj) (sig : Prim) : VKW :=
-  ⟨if k.cls.isExtVerification then toNonExtended k else k, sig⟩
+  ⟨if k.cls.isExtVerification then toNonExtended k
+   else if k.cls.isVerification then mkKey .verification k.payload
+   else k, sig⟩
+
+/-- `SigningKey.to_verification_key`: `VerificationKey(<public key bytes>, key_type.replace("Signing", "Verification"),
+description.replace(…))` — the class is exactly `VerificationKey`, the envelope is the signing key's, renamed.  (The
+derivation of the public key bytes is outside this model: `pub`.) -/
+def toVerificationKey (pub : Bytes) (sk : KeyObj) : KeyObj :=
+  mkKey .verification pub (some (sk.keyType.replace "Signing" "Verification"))
+    (some (sk.description.replace "Signing" "Verification"))
 
 /-- `ArrayCBORSerializable.to_shallow_primitive` for the two fields: `[vkey, signature]` -/
 def vkwItem (w : VKW) : Item := .array [keyItem w.vkey, w.sig.toItem]
